@@ -130,6 +130,10 @@ func (g *GenCfg) genTime(r *RNG) []interface{} {
 			if g.GobZones && off < 0 && off%60 != 0 {
 				off -= off % 60
 			}
+			// … and time.MarshalBinary refuses the offset of exactly minus one minute (its marker for UTC)
+			if g.GobZones && off/60 == -1 {
+				off = -120
+			}
 		}
 	}
 	return []interface{}{sec, nsec, off}
